@@ -147,6 +147,8 @@ def gen(rng, tier, mult=1):
         yield Y.gen_c12_swap_case(rng, cache_size=[1, 2, 64, 0][i % 4], template=("jinja" if i % 3 == 0 else None))
     for i in range(n // 10):
         yield Y.gen_c12_listmerge_case(rng, cache_size=[1, 64, 2, 0][i % 4], template=("jinja" if i % 3 == 0 else None))
+    for i in range(n // 10):
+        yield Y.gen_c12_repeat_case(rng, cache_size=[1, 64, 2, 0][i % 4], template=("jinja" if i % 3 == 0 else None))
     for i in range(n // 4):
         yield Y.gen_lru_case(rng, size=[0, 1, 2, 3, 64][i % 5])
 
